@@ -389,30 +389,46 @@ def translated():
 
 
 def generate():
+    """Four files, so that a change of a sequence resource does not rebuild what depends only on the choice regexes:
+    Gen/ReTables.lean (engine tables), Gen/Regexes.lean (sequence patterns + translator self-test patterns),
+    Gen/RegexesChoice.lean (boolean patterns), Gen/RegexIndex.lean (name -> RE for the driver)."""
     ok, raw, bad = translated()
-    text = HEADER % ('regexes', 'resource modules of the working tree + tables of regex %s' % regex.__version__)
-    text += 'import RTV.Model.Re\nimport RTV.Model.Py\nset_option maxRecDepth 1000000\nnamespace RTV.Gen\nopen RTV.Re\n\n'
-    text += '/-- `\\d` as the `regex` module sees it (Unicode Nd of its own database) -/\n'
-    text += 'def reDigitRanges : Array (Nat × Nat) := ' + fmt_ranges(engine_ranges(r'\d')) + '\n\n'
-    text += '/-- `\\w` as the `regex` module sees it -/\n'
-    text += 'def reWordRanges : Array (Nat × Nat) := ' + fmt_ranges(engine_ranges(r'\w')) + '\n\n'
-    text += '/-- `\\s` as the `regex` module sees it -/\n'
-    text += 'def reSpaceRanges : Array (Nat × Nat) := ' + fmt_ranges(engine_ranges(r'\s')) + '\n\n'
-    text += ('/-- the tables of the running engine -/\ndef reTables : Tables where\n'
-             '  digit c := RTV.Py.inRangesArr reDigitRanges c\n'
-             '  word c := RTV.Py.inRangesArr reWordRanges c\n'
-             '  space c := RTV.Py.inRangesArr reSpaceRanges c\n\n')
+    src = 'resource modules of the working tree + tables of regex %s' % regex.__version__
+    tables = HEADER % ('regexes', src)
+    tables += 'import RTV.Model.Re\nimport RTV.Model.Py\nset_option maxRecDepth 1000000\nnamespace RTV.Gen\nopen RTV.Re\n\n'
+    tables += '/-- `\\d` as the `regex` module sees it (Unicode Nd of its own database) -/\n'
+    tables += 'def reDigitRanges : Array (Nat × Nat) := ' + fmt_ranges(engine_ranges(r'\d')) + '\n\n'
+    tables += '/-- `\\w` as the `regex` module sees it -/\n'
+    tables += 'def reWordRanges : Array (Nat × Nat) := ' + fmt_ranges(engine_ranges(r'\w')) + '\n\n'
+    tables += '/-- `\\s` as the `regex` module sees it -/\n'
+    tables += 'def reSpaceRanges : Array (Nat × Nat) := ' + fmt_ranges(engine_ranges(r'\s')) + '\n\n'
+    tables += ('/-- the tables of the running engine -/\ndef reTables : Tables where\n'
+               '  digit c := RTV.Py.inRangesArr reDigitRanges c\n'
+               '  word c := RTV.Py.inRangesArr reWordRanges c\n'
+               '  space c := RTV.Py.inRangesArr reSpaceRanges c\n\nend RTV.Gen\n')
+    head = 'import RTV.Gen.ReTables\nset_option maxRecDepth 1000000\nnamespace RTV.Gen\nopen RTV.Re\n\n'
+    seq = HEADER % ('regexes', src) + head
+    cho = HEADER % ('regexes', src) + head
     names = []
     for name, ast, pat, flags, origin in ok:
-        text += '/-- %s\n    pattern: %s -/\n' % (origin, pat.replace('-/', '- /').replace('/-', '/ -'))
-        text += 'def %s : RE :=\n%s\n\n' % (name, wrap(lean_re(ast)))
+        d = '/-- %s\n    pattern: %s -/\n' % (origin, pat.replace('-/', '- /').replace('/-', '/ -'))
+        d += 'def %s : RE :=\n%s\n\n' % (name, wrap(lean_re(ast)))
+        if name.startswith('bool'):
+            cho += d
+        else:
+            seq += d
         names.append(name)
     for name, t in raw:
-        text += '/-- pattern text (code points) -/\ndef %s : List Nat := [%s]\n\n' % (
+        cho += '/-- pattern text (code points) -/\ndef %s : List Nat := [%s]\n\n' % (
             name, ', '.join(str(ord(c)) for c in t))
     for name, pat, why in bad:
-        text += '-- UNSUPPORTED %s: %s\n--   %s\n\n' % (name, why, pat)
-    text += 'def allRegexes : List (String × RE) := [\n' + ',\n'.join('  ("%s", %s)' % (n, n) for n in names) + ']\n\n'
-    text += 'def unsupportedRegexes : List String := [%s]\n\n' % ', '.join('"%s"' % n for n, _, _ in bad)
-    text += 'end RTV.Gen\n'
-    return [(os.path.join(GEN, 'Regexes.lean'), text)]
+        seq += '-- UNSUPPORTED %s: %s\n--   %s\n\n' % (name, why, pat)
+    seq += 'end RTV.Gen\n'
+    cho += 'end RTV.Gen\n'
+    idx = HEADER % ('regexes', src)
+    idx += 'import RTV.Gen.Regexes\nimport RTV.Gen.RegexesChoice\nnamespace RTV.Gen\nopen RTV.Re\n\n'
+    idx += 'def allRegexes : List (String × RE) := [\n' + ',\n'.join('  ("%s", %s)' % (n, n) for n in names) + ']\n\n'
+    idx += 'def unsupportedRegexes : List String := [%s]\n\n' % ', '.join('"%s"' % n for n, _, _ in bad)
+    idx += 'end RTV.Gen\n'
+    return [(os.path.join(GEN, 'ReTables.lean'), tables), (os.path.join(GEN, 'Regexes.lean'), seq),
+            (os.path.join(GEN, 'RegexesChoice.lean'), cho), (os.path.join(GEN, 'RegexIndex.lean'), idx)]
